@@ -38,7 +38,14 @@ from vlib.cham import run
 from vlib.harness import Check, Mismatch, Part
 from checks.c19 import expr_slots, INVALID_SHAPES
 
+# invalid expressions written over several lines
+ML_SHAPES = ["%d +\n   %d +", "(%d,\n %d", "[%d,\n\n  %d", "%d\n%d"]
+
 ENT = re.compile(r"&(#[0-9]+|#x[0-9a-fA-F]+|\w{1,8});")
+
+
+def squeeze(s):
+    return re.sub(r"\s+", " ", s.strip())
 
 
 def line_col(src, off):
@@ -58,7 +65,9 @@ def check_location(src, exc, true_off=None):
     Returns a reason string or None."""
     tok = str(exc.token)
     off = exc.offset
-    if src[off:off + len(tok)] != tok:
+    # (line breaks inside an expression are reported as blanks)
+    if re.sub("[\r\n]", " ", src[off:off + len(tok)]) != \
+            re.sub("[\r\n]", " ", tok):
         return "slice at offset differs from token"
     if tuple(exc.location) != line_col(src, off):
         return "location differs from offset"
@@ -76,7 +85,7 @@ def expr_cases(draw):
     nodes = copy.deepcopy(case["nodes"])
     slots = expr_slots(nodes)
     i = draw(st.integers(0, max(0, len(slots) - 1)))
-    shape = draw(st.sampled_from(INVALID_SHAPES))
+    shape = draw(st.sampled_from(INVALID_SHAPES + ML_SHAPES))
     text = shape % ((77,) * shape.count("%d")) if "%d" in shape \
         else shape + " 77 +"
     alt = False
@@ -181,7 +190,7 @@ class ExprErrors(Part):
             # CR is not generated there)
             eol = "\r\n" if eol == "\r" else eol
             src = src.replace("\n", eol)
-            true_off = src.find(case["text"])
+            true_off = src.find(case["text"].replace("\n", eol))
             detail.update(source=src, true_offset=true_off)
             eol = "\n"
         o = run(PageTemplate, src.replace("\n", eol), **opts)
@@ -195,7 +204,7 @@ class ExprErrors(Part):
         detail.update(token=tok, offset=off, location=list(o.exc.location),
                       found=src[off:off + len(tok)])
         truncated = False
-        if tok.strip() != case["text"]:
+        if squeeze(tok) != squeeze(case["text"]):
             # the brace-truncated head of a ${...} candidate is tolerated
             # (the whole candidate was tried first); anything else is not
             inside = src.rfind("${", 0, off + 1) > src.rfind("}", 0, off)
@@ -218,7 +227,8 @@ class ExprErrors(Part):
         seg_start = s2 if in_interp else start
         shift = entity_shift(src, seg_start, true_off) if seg_start >= 0 \
             else 0
-        if shift and off == true_off - shift and tok.strip() == case["text"]:
+        if shift and off == true_off - shift and \
+                squeeze(tok) == squeeze(case["text"]):
             return Mismatch("expr:K12", dict(detail, shift=shift))
         return Mismatch("expr:" + why, detail)
 
@@ -258,6 +268,20 @@ SNIPPETS = {
     "empty_target": '<i i18n:target="">a</i>',
     "define_tuple_nested": '<i tal:define="((a, b), c) ((1, 2), 3)">a</i>',
     "unknown_tal": '<i tal:bogus="1">a</i>',
+    # the statements of one language are unknown in the two others
+    "tal_translate": '<i tal:translate="">a</i>',
+    "tal_domain": '<i class="c" tal:domain="d">a</i>',
+    "tal_use_macro": '<i tal:use-macro="m">a</i>',
+    "tal_fill_slot": '<i tal:fill-slot="s">a</i>',
+    "i18n_define": '<i i18n:define="x 1">a</i>',
+    "i18n_content": '<i i18n:content="x">a</i>',
+    "i18n_define_macro": '<i i18n:define-macro="m">a</i>',
+    "metal_content": '<i metal:content="x">a</i>',
+    "metal_repeat": '<i metal:repeat="i x">a</i>',
+    "metal_translate": '<i metal:translate="">a</i>',
+    "tal_element_translate": '<tal:block translate="">a</tal:block>',
+    "metal_element_repeat": '<metal:block repeat="i (1,)">a</metal:block>',
+    "i18n_element_content": '<i18n:block content="x">a</i18n:block>',
     "unknown_metal": '<i metal:bogus="1">a</i>',
     "unknown_i18n": '<i i18n:bogus="1">a</i>',
     "content_and_replace": '<i tal:content="a" tal:replace="b">a</i>',
